@@ -270,3 +270,36 @@ func firstNOf(x *core.Explorer, sl, buf, n *core.Term) bool {
 	}
 	return sl.Args[1] == lo && sl.Args[2] == x.Bin(token.ADD, x.StripWiden(lo), x.StripWiden(n), types.Typ[types.Int])
 }
+
+// acceptsEveryLength: setReadRemaining refuses exactly the negative values: a
+// conformant frame of any length up to 2^63-1 is accepted (no narrower
+// integer type or platform limit leaks into the protocol).
+func (rd *reader) acceptsEveryLength(rule string) {
+	c := rd.c
+	fn := rd.setRem
+	ok, why := true, "setReadRemaining returns an error only for n < 0 and stores n otherwise"
+	n := 0
+	c.explore(rule, fn, core.Opts{RecordLoads: true}, func(p *core.Path) {
+		if p.End != core.EndReturn || len(p.Results) != 1 {
+			return
+		}
+		n++
+		prm := p.X.ParamTerm(fn.Params[1])
+		neg := knowsLt(p, len(p.Lits), 0, is(prm))
+		if !p.Results[0].IsNil() && !neg {
+			ok, why = false, "setReadRemaining refuses a length at "+c.P.Pos(p.Ret.Pos())+" without knowing it to be negative: conformant frames (for example of 2 GiB or more) are rejected"
+		}
+		if p.Results[0].IsNil() {
+			stored := false
+			for i := range p.Events {
+				if ev := &p.Events[i]; ev.Kind == core.EvStore && isFieldAddr(ev.Addr, rd.readRemaining) && ev.Val == prm {
+					stored = true
+				}
+			}
+			if !stored {
+				ok, why = false, "setReadRemaining accepts a length without storing it"
+			}
+		}
+	})
+	c.R.Check(rule, shortFn(fn), "refuses-exactly-negative-lengths", fn.Pos(), ok && n >= 2, why)
+}
